@@ -146,7 +146,7 @@ def apply_overlay(scratch, files, swap_crypto, extra_text=None):
         cfg = "kani" if not f["cfg"] else "all(kani, %s)" % f["cfg"]
         with open(anchor, "a") as fh:
             fh.write('\n#[cfg(%s)]\n#[allow(warnings, unused_extern_crates, clippy::all)]\n'
-                     '#[path = "%s"]\nmod %s;\n' % (cfg, cp, f["modname"]))
+                     '#[path = "%s"]\npub(crate) mod %s;\n' % (cfg, cp, f["modname"]))
     if swap_crypto:
         lib = os.path.join(src, "lorawan-encoding/src/lib.rs")
         text = open(lib).read()
@@ -172,20 +172,47 @@ def _limits(mem_gb):
     return f
 
 
+_children = set()
+
+
+def kill_children():
+    for pid in list(_children):
+        try:
+            os.killpg(pid, signal.SIGKILL)
+        except (ProcessLookupError, PermissionError):
+            pass
+
+
+def _on_term(signum, frame):
+    kill_children()
+    cleanup()
+    os._exit(2)
+
+
+def install_signal_handlers():
+    signal.signal(signal.SIGTERM, _on_term)
+    signal.signal(signal.SIGINT, _on_term)
+    signal.signal(signal.SIGHUP, _on_term)
+
+
 def run_cmd(cmd, cwd, log, timeout, mem_gb=None, env=None):
     t0 = time.time()
     with open(log, "w") as fh:
         p = subprocess.Popen(cmd, cwd=cwd, stdout=fh, stderr=subprocess.STDOUT,
                              env=env or ENV, preexec_fn=_limits(mem_gb))
+        _children.add(p.pid)
         try:
             rc = p.wait(timeout=timeout)
         except subprocess.TimeoutExpired:
+            rc = -9
+        finally:
+            # cbmc processes may outlive a killed cargo-kani: always reap the whole group
             try:
                 os.killpg(p.pid, signal.SIGKILL)
-            except ProcessLookupError:
+            except (ProcessLookupError, PermissionError):
                 pass
             p.wait()
-            rc = -9
+            _children.discard(p.pid)
     return rc, time.time() - t0
 
 
